@@ -142,57 +142,93 @@ def run(chk, repo):
         d = next(iter(ds))
         search_nodes = [d.node]
         e = d.value
-        # e == S - X[S::-1].index(None) [- C]
-        c = 0
-        core = e
-        lf = None
-        b = match(f"$s - {lst}[$t::-1].index(None) - $c", e)
-        if b is not None and int_const(b["c"]) is not None:
-            c = int_const(b["c"])
-        else:
-            b = match(f"$s - {lst}[$t::-1].index(None)", e)
-            if b is None:
-                b = match(f"$s - {lst}[$t::-1].index(None) + $c", e)
-                if b is not None and int_const(b["c"]) is not None:
-                    c = -int_const(b["c"])
-                else:
-                    b = None
-        need(b is not None, f"{SYM}: search idiom not recognised: "
-                            f"{unparse(e)}")
-        need(same(b["s"], b["t"]), f"{SYM}: slice start and minuend differ")
-        s = b["s"]
-        if isinstance(s, ast.Name):
-            sdefs = [(x.value, x.node) for x in rd.reaching(d.node, s.id)]
-            need(all(isinstance(v, ast.AST) for v, _ in sdefs),
-                 f"{SYM}: start has a non-simple definition")
-        else:
-            sdefs = [(s, d.node)]
-        chk.floor("R20.1", "reaching definitions of the search start",
-                  len(sdefs), 1)
-        for sv, sn in sdefs:
-            proved, off = start_le_last(sv, lst)
-            if proved:
-                ok = c == 0
-                why = (f"start = {unparse(sv)} <= len-1, so element k of "
-                       f"the reversed slice is slot start-k; claimed "
-                       f"start-k-({c})")
-            elif off is not None:
-                ok = c == off + 1
-                why = (f"start = len+{off}: the slice starts at len-1, "
-                       f"tested slot len-1-k; claimed len+{off}-k-({c})")
+        helper = None
+        if isinstance(e, ast.Call) and isinstance(e.func, ast.Attribute) \
+                and isinstance(e.func.value, ast.Name) and e.func.value.id \
+                == "self":
+            owner, helper = repo.lookup(repo.enclosing_class(f), e.func.attr)
+        if helper is not None and isinstance(helper, FUNC):
+            # the search lives in a helper: it must return an index only
+            # from under an identity test of that slot against None, and
+            # raise when it finds none
+            hsym = owner.qualname + "." + e.func.attr
+            hcfg = CFG(helper)
+            rets = [n for n in hcfg.nodes if n.kind == "return"
+                    and n.stmt.value is not None]
+            need(rets, f"{hsym}: returns no index")
+            bad = []
+            for r in rets:
+                rv = unparse(r.stmt.value)
+                facts = path_facts(r.stmt)
+                if not any(t and match(f"{lst}[{rv}] is None", x)
+                           is not None for x, t in facts):
+                    tests = [f"{unparse(x)} is {t}" for x, t in facts
+                             if "fmmu_used" in unparse(x)]
+                    bad.append(f"`return {rv}` under {tests or 'no test'}")
+            falls = hcfg.exit in hcfg.reach_edges(
+                hcfg.entry, lambda a, b, lab: a.kind not in ("return",
+                                                             "raise"))
+            chk.ob("R20.1", SYM, "claimed slot tested free (search helper)",
+                   not bad and not falls, helper,
+                   ("; ".join(bad) + ": only `is None` means free - a "
+                    "mapping at logical address 0 is falsy and would be "
+                    "handed out again") if bad else
+                   ("the helper can fall off its end and return None"
+                    if falls else f"{hsym} returns an index only where "
+                    f"`fmmu_used[index] is None` held"))
+            e = None
+        if e is not None:
+            # e == S - X[S::-1].index(None) [- C]
+            c = 0
+            core = e
+            lf = None
+            b = match(f"$s - {lst}[$t::-1].index(None) - $c", e)
+            if b is not None and int_const(b["c"]) is not None:
+                c = int_const(b["c"])
             else:
-                ok = False
-                why = (f"start = {unparse(sv)} is not provably <= len-1: "
-                       f"when it is, element k of fmmu_used[start::-1] is "
-                       f"slot start-k but the claim is start-k-({c}); when "
-                       f"it is not, the slice starts at len-1")
-                if c == 0 and int_const(sv) is not None:
-                    why = (f"start = {unparse(sv)} may exceed len-1 (a "
-                           f"terminal with {int_const(sv)} FMMU(s) or less): "
-                           f"then the tested slot is len-1-k but start-k is "
-                           f"claimed")
-            chk.ob("R20.1", SYM, f"claimed slot is the tested one for start "
-                   f"= {unparse(sv)}", ok, sv, why)
+                b = match(f"$s - {lst}[$t::-1].index(None)", e)
+                if b is None:
+                    b = match(f"$s - {lst}[$t::-1].index(None) + $c", e)
+                    if b is not None and int_const(b["c"]) is not None:
+                        c = -int_const(b["c"])
+                    else:
+                        b = None
+            need(b is not None, f"{SYM}: search idiom not recognised: "
+                                f"{unparse(e)}")
+            need(same(b["s"], b["t"]), f"{SYM}: slice start and minuend differ")
+            s = b["s"]
+            if isinstance(s, ast.Name):
+                sdefs = [(x.value, x.node) for x in rd.reaching(d.node, s.id)]
+                need(all(isinstance(v, ast.AST) for v, _ in sdefs),
+                     f"{SYM}: start has a non-simple definition")
+            else:
+                sdefs = [(s, d.node)]
+            chk.floor("R20.1", "reaching definitions of the search start",
+                      len(sdefs), 1)
+            for sv, sn in sdefs:
+                proved, off = start_le_last(sv, lst)
+                if proved:
+                    ok = c == 0
+                    why = (f"start = {unparse(sv)} <= len-1, so element k of "
+                           f"the reversed slice is slot start-k; claimed "
+                           f"start-k-({c})")
+                elif off is not None:
+                    ok = c == off + 1
+                    why = (f"start = len+{off}: the slice starts at len-1, "
+                           f"tested slot len-1-k; claimed len+{off}-k-({c})")
+                else:
+                    ok = False
+                    why = (f"start = {unparse(sv)} is not provably <= len-1: "
+                           f"when it is, element k of fmmu_used[start::-1] is "
+                           f"slot start-k but the claim is start-k-({c}); when "
+                           f"it is not, the slice starts at len-1")
+                    if c == 0 and int_const(sv) is not None:
+                        why = (f"start = {unparse(sv)} may exceed len-1 (a "
+                               f"terminal with {int_const(sv)} FMMU(s) or less): "
+                               f"then the tested slot is len-1-k but start-k is "
+                               f"claimed")
+                chk.ob("R20.1", SYM, f"claimed slot is the tested one for start "
+                       f"= {unparse(sv)}", ok, sv, why)
     # ------------------------------------------------------------ R20.2
     sn = search_nodes[0]
     handlers = []
@@ -265,3 +301,21 @@ def run(chk, repo):
                    None for e, t in guard), call,
                "a mapping is requested only where the allocation produced a "
                "base for that sync manager")
+    # the mappings live exactly as long as this activation: the yield is
+    # inside the stack's `async with`, and the stack is not handed over to
+    # longer-lived state
+    ys = [y for y in walk_no_nested(g) if isinstance(y, ast.Yield)]
+    need(len(ys) == 1, f"{sym2}: expected one yield")
+    inside = in_with_region(ys[0], lambda e: match("AsyncExitStack()", e)
+                            is not None)
+    moved = [c for c in calls_in(g) if isinstance(c.func, ast.Attribute)
+             and c.func.attr == "pop_all"]
+    chk.ob("R20.4", sym2, "the mappings are released by the activation "
+           "that entered them", inside is not None and not moved,
+           moved[0] if moved else ys[0],
+           "the yield lies inside `async with AsyncExitStack()`" if inside
+           is not None and not moved else
+           "the exit stack is detached from the activation (pop_all / "
+           "yield outside its with): with two overlapping activations of "
+           "one group object the older exit closes the newer one's "
+           "mappings, freeing FMMUs that are still live")
